@@ -8,6 +8,9 @@ fn main() {
     match args.get(1).map(|s| s.as_str()) {
         Some("remove-overlaps") => std::process::exit(remove_overlaps_case(&args[2])),
         Some("tiling") => std::process::exit(tiling_case(&args[2])),
+        Some("lint-plain") => std::process::exit(lint_plain_case(&args[2])),
+        Some("split") => std::process::exit(split_case(&args[2], &args[3])),
+        Some("cache") => std::process::exit(cache_case(&args[2..])),
         Some("remove-overlaps-raw") => {
             // prints the identity tags of the surviving lints, in output order (translation validation of mirsym)
             let mut v = parse_lints(args.get(2).map(|s| s.as_str()).unwrap_or(""));
@@ -58,6 +61,147 @@ fn tiling_case(text: &str) -> i32 {
         bad = 1;
     }
     println!("text {:?} -> {} tokens: {:?}", text, doc.get_tokens().len(), doc.get_tokens().iter().map(|t| (t.span.start, t.span.end)).collect::<Vec<_>>());
+    bad
+}
+
+/// C01: turning a text into a plain-English document and linting it with the curated rule set returns normally.
+fn lint_plain_case(text: &str) -> i32 {
+    use harper_core::linting::{LintGroup, Linter};
+    use harper_core::{Dialect, Document, FstDictionary};
+    let doc = Document::new_plain_english_curated(text);
+    let mut group = LintGroup::new_curated(FstDictionary::curated(), Dialect::American);
+    let lints = group.lint(&doc);
+    let len = text.chars().count();
+    let mut bad = 0;
+    for l in &lints {
+        if l.span.start > l.span.end || l.span.end > len {
+            println!("VIOLATED: lint span {:?} outside the text of {len} chars", l.span);
+            bad = 1;
+        }
+    }
+    println!("text {:?}: {} tokens, {} lints", text, doc.get_tokens().len(), lints.len());
+    bad
+}
+
+/// C12 (structural): iter_chunks / iter_sentences / iter_paragraphs partition the token list.
+fn split_case(how: &str, kinds: &str) -> i32 {
+    use harper_core::{Punctuation, Quote, Token, TokenKind, TokenStringExt};
+    let mk = |k: &str| -> TokenKind {
+        match k {
+            "word" => TokenKind::Word(None),
+            "space" => TokenKind::Space(1),
+            "period" => TokenKind::Punctuation(Punctuation::Period),
+            "comma" => TokenKind::Punctuation(Punctuation::Comma),
+            "colon" => TokenKind::Punctuation(Punctuation::Colon),
+            "question" => TokenKind::Punctuation(Punctuation::Question),
+            "bang" => TokenKind::Punctuation(Punctuation::Bang),
+            "hyphen" => TokenKind::Punctuation(Punctuation::Hyphen),
+            "quote" => TokenKind::Punctuation(Punctuation::Quote(Quote { twin_loc: None })),
+            "pbreak" => TokenKind::ParagraphBreak,
+            other => panic!("unknown kind {other}"),
+        }
+    };
+    let names: Vec<&str> = kinds.split(',').filter(|s| !s.is_empty()).collect();
+    let toks: Vec<Token> = names.iter().enumerate().map(|(i, k)| Token { span: Span { start: i, end: i + 1 }, kind: mk(k) }).collect();
+    let term: &[&str] = match how {
+        "paragraphs" => &["pbreak"],
+        "sentences" => &["pbreak", "period", "question", "bang"],
+        _ => &["pbreak", "period", "question", "bang", "comma", "quote", "colon"],
+    };
+    let pieces: Vec<&[Token]> = match how {
+        "paragraphs" => toks.iter_paragraphs().collect(),
+        "sentences" => toks.iter_sentences().collect(),
+        _ => toks.iter_chunks().collect(),
+    };
+    let n = toks.len();
+    let mut next = 0;
+    let mut bad = 0;
+    for (idx, p) in pieces.iter().enumerate() {
+        if p.is_empty() {
+            if n != 0 {
+                println!("VIOLATED: piece {idx} is empty");
+                bad = 1;
+            }
+            continue;
+        }
+        if p[0].span.start != next {
+            println!("VIOLATED: piece {idx} starts at token {} but {next} was expected", p[0].span.start);
+            bad = 1;
+        }
+        for t in &p[..p.len() - 1] {
+            if term.contains(&names[t.span.start]) {
+                println!("VIOLATED: piece {idx} contains a terminator before its end");
+                bad = 1;
+            }
+        }
+        next = p[p.len() - 1].span.end;
+        if next < n && !term.contains(&names[next - 1]) {
+            println!("VIOLATED: piece {idx} ends without a terminator although tokens follow");
+            bad = 1;
+        }
+    }
+    if next != n {
+        println!("VIOLATED: the pieces cover tokens 0..{next} of {n}");
+        bad = 1;
+    }
+    println!("{how} of {names:?}: {:?}", pieces.iter().map(|p| p.len()).collect::<Vec<_>>());
+    bad
+}
+
+/// C05/C03/C12 kernel: a long-lived LintGroup (clause cache warm from earlier documents, configuration toggled
+/// in between) must return exactly what a fresh LintGroup returns. args: doc1 doc2 [q_enabled_for_doc2 = 0|1]
+fn cache_case(args: &[String]) -> i32 {
+    use harper_core::linting::{LintGroup, Linter, PatternLinter};
+    use harper_core::patterns::Pattern;
+    use harper_core::{Document, Token};
+
+    struct Rule {
+        pat: Box<dyn Pattern>,
+        tag: u8,
+    }
+    impl PatternLinter for Rule {
+        fn pattern(&self) -> &dyn Pattern {
+            self.pat.as_ref()
+        }
+        fn match_to_lint(&self, toks: &[Token], _src: &[char]) -> Option<Lint> {
+            Some(Lint { span: toks[0].span, lint_kind: LintKind::Miscellaneous, suggestions: vec![], message: String::new(), priority: self.tag })
+        }
+        fn description(&self) -> &str {
+            "stub"
+        }
+    }
+    // Q: every word starting with 'q'; W: every word starting with 'w' (both functions of the clause text only)
+    fn starts_with(c: char) -> Box<dyn Pattern> {
+        Box::new(move |t: &Token, src: &[char]| t.kind.is_word() && t.span.get_content(src).first() == Some(&c))
+    }
+    fn group(q: bool) -> LintGroup {
+        let mut g = LintGroup::empty();
+        g.add_pattern_linter("Q", Box::new(Rule { pat: starts_with('q'), tag: 1 }));
+        g.add_pattern_linter("W", Box::new(Rule { pat: starts_with('w'), tag: 2 }));
+        g.config.set_rule_enabled("Q", q);
+        g.config.set_rule_enabled("W", true);
+        g
+    }
+    let d1 = Document::new_plain_english_curated(&args[0]);
+    let d2 = Document::new_plain_english_curated(&args[1]);
+    let q2 = args.get(2).map(|s| s != "0").unwrap_or(true);
+    let mut long_lived = group(true);
+    let _ = long_lived.lint(&d1);
+    long_lived.config.set_rule_enabled("Q", q2);
+    let got = long_lived.lint(&d2);
+    let want = group(q2).lint(&d2);
+    let key = |v: &Vec<Lint>| v.iter().map(|l| (l.span.start, l.span.end, l.priority)).collect::<Vec<_>>();
+    println!("after {:?}, linting {:?} (Q enabled: {q2}) gives {:?}; a fresh linter gives {:?}", args[0], args[1], key(&got), key(&want));
+    let len2 = args[1].chars().count();
+    let mut bad = 0;
+    if key(&got) != key(&want) {
+        println!("VIOLATED: the long-lived linter disagrees with a fresh one");
+        bad = 1;
+    }
+    if got.iter().any(|l| l.span.start > l.span.end || l.span.end > len2) {
+        println!("VIOLATED: a lint span lies outside the text");
+        bad = 1;
+    }
     bad
 }
 
